@@ -63,6 +63,27 @@ def merge_order(m):
     return None
 
 
+def base_recursion_rule(ctx, r):
+    """SIBLING rule shared with C03: in format and builder, a query that falls through to the base format passes the fall-through on."""
+    for cname in ("clikit.api.args.format.args_format.ArgsFormat", "clikit.api.args.format.args_format_builder.ArgsFormatBuilder"):
+        c = ctx.cls(cname)
+        for name, m in sorted(c.methods.items()):
+            if "include_base" not in m.params:
+                continue
+            for call in q.calls(m):
+                if isinstance(call.func, ast.Attribute) and is_self_attr(call.func.value, BASE):
+                    kw = q.kwarg(call, "include_base")
+                    pos = None
+                    callee = ctx.p.lookup_method(ctx.cls("clikit.api.args.format.args_format.ArgsFormat"), call.func.attr)
+                    if callee is not None and "include_base" in callee.params:
+                        pos = q.arg_for_param(call, callee, "include_base")
+                    val = kw if kw is not None else pos
+                    if isinstance(val, ast.Constant) and val.value is False:
+                        r.fail(m, call, norm(call), "%s.%s asks its base format with include_base=False: only one level of bases is consulted, elements declared two or more levels up are lost" % (c.name, name))
+                    else:
+                        r.ok("%s.%s: %s (recursive)" % (c.name, name, norm(call)[:60]))
+
+
 def run(ctx):
     p, cg = ctx.p, ctx.cg
     fmt = ctx.cls("clikit.api.args.format.args_format.ArgsFormat")
@@ -172,6 +193,11 @@ def run(ctx):
             r.ok("field %s mirrored" % f)
         else:
             r.fail(init, init.node, "field " + f, "field %s exists only in the %s: queries depending on it cannot agree" % (f, "builder" if f in bf else "format"))
+
+    # ---------------------------------------------------------------- R8
+    r = ctx.rule("C06-R8", "SIBLING", "the fall-through to the base format is recursive in every query of format and builder (no include_base=False on the call to the base): "
+                 "elements of a base's base are found", reference=6)
+    base_recursion_rule(ctx, r)
 
     # ---------------------------------------------------------------- R4
     r = ctx.rule("C06-R4", "SIBLING", "has_X(k) is true exactly when get_X(k) finds k: both consult the same indices", reference=6)
